@@ -342,6 +342,17 @@ impl Ctx {
             self.recording = false;
             panic!("{}", STEP_BUDGET_MSG);
         }
+        // memory guard (a run that allocates without bound is stopped like one that exceeds the step budget)
+        if self.recording && self.steps % 8192 == 0 {
+            if let Ok(s) = std::fs::read_to_string("/proc/self/statm") {
+                if let Some(rss_pages) = s.split_whitespace().nth(1).and_then(|x| x.parse::<u64>().ok()) {
+                    if rss_pages * 4096 > 2_500_000_000 {
+                        self.recording = false;
+                        panic!("{}", STEP_BUDGET_MSG);
+                    }
+                }
+            }
+        }
     }
 }
 
